@@ -422,6 +422,24 @@ judge_dt(int rep, int ia, int ta, int ib, int tb, int replay)
 	EX_CTR(c_nontriv, "nontrivial");
 
 	*c_eval += 2;
+	if (mil) {
+#if !defined C08_JUDGE_MILITARY_MIDNIGHT
+		/* reading (DESIGN.md Corrections / notes/C08-defects.md): the repository pins
+		 * T24:00:00 as strictly before the next day's T00:00:00 (test/mil-midnight.005/006),
+		 * C11's statement says it denotes that instant; C08's own statement does not place
+		 * it on the timeline, so such pairs are outside C08 */
+		EX_CTR(c_skipm, "skipped:pair with the text T24:00:00 (its place on the timeline is C11's statement, the repository's tests pin another one)");
+		++*c_skipm;
+		return 0;
+#else
+		/* the following day must exist in the model and in the representation */
+		int ra = xa->sod == 86400 ? rda + 1 : rda, rb = xb->sod == 86400 ? rdb + 1 : rdb;
+		if (ra >= RC_NDAYS || rb >= RC_NDAYS || (rep == R_BIZDA && (!rc_get(ra)->isbd || !rc_get(rb)->isbd))) {
+			++*c_skip;
+			return 0;
+		}
+#endif
+	}
 	if (!mkdt(rep, rda, xa, &a, txa, sizeof(txa), &fa) || !mkdt(rep, rdb, xb, &b, txb, sizeof(txb), &fb)) {
 		++*c_skip;
 		if (replay) {
@@ -631,8 +649,13 @@ main(int argc, char *argv[])
 	ex_meta("rule", "oracle: cmp(a,b) = sign(instant(a) - instant(b)), instant = reference day ordinal x 86400 + second (+ns). "
 		"Values: P parsed from standard text, C converted from the parsed ymd value, A = P(day-1)+1d; C and A only when their day count "
 		"is the model's. Judged: dt_dcmp and dt_dtcmp on dates in {ymd,ymcw,ywd,yd,bizda(business days),daisy}; dt_dtcmp on date-times "
-		"(same representations plus epoch counts given as @N and through %%s; the text T24:00:00 denotes 00:00:00 of the next day, "
-		"reported under its own class); dt_tcmp and dt_dtcmp on times; range predicates: 1 iff lower <= d <= upper, else 0, "
+		"(same representations plus epoch counts given as @N and through %%s; pairs with the text T24:00:00 are "
+#if defined C08_JUDGE_MILITARY_MIDNIGHT
+		"judged as 00:00:00 of the next day, under their own class"
+#else
+		"skipped and counted: C08's statement does not place that text on the timeline and the repository's tests pin it before the next day's 00:00:00"
+#endif
+		"); dt_tcmp and dt_dtcmp on times; range predicates: 1 iff lower <= d <= upper, else 0, "
 		"bounds given in order. non-trivial = pair whose raw words are ordered differently from the days or which straddles a year "
 		"(dates); pair where day order and clock order disagree (date-times)");
 	ex_meta("bound", "WIN: all ordered pairs of %d eight-year windows (2,921 or 2,922 days each: %s) x 6 representations x %d producer pairs; "
